@@ -24,6 +24,28 @@ def _layers(p: Project, prefixes):
     return [fi for fi in p.functions.values() if any(fi.module.name == m or fi.module.name.startswith(m + ".") for m in prefixes)]
 
 
+def run_flag_fwd(p: Project, clause: str, modules, param: str, floor: int, description: str) -> RuleResult:
+    """Strict variant for an internal flag (e.g. `more_available`): every resolved callee that takes the flag gets
+    the caller's own flag - not a constant, not nothing."""
+    rr = RuleResult("FLAG-FWD", clause, description, floor=floor)
+    for fi in _layers(p, modules):
+        if param not in fi.params:
+            continue
+        for c in fi.own_nodes():
+            if not isinstance(c, ast.Call):
+                continue
+            cands = [x for x in (p.resolve_call(c, fi) or []) if hasattr(x, "params") and param in x.params]
+            if not cands:
+                continue
+            g = cands[0]
+            i = g.params.index(param) - (1 if g.cls is not None and g.params and g.params[0] in ("self", "cls") else 0)
+            arg = c.args[i] if len(c.args) > i else next((k.value for k in c.keywords if k.arg == param), None)
+            rr.inst(f"{short(fi)}:{norm(c, 60)}", True, {"caller": short(fi), "call": norm(c, 60)} if len(rr.samples) < 6 else None)
+            if not (isinstance(arg, ast.Name) and arg.id == param):
+                rr.add(finding("FLAG-FWD", fi, c, f"`{norm(c, 70)}` passes `{ast.unparse(arg) if arg is not None else 'nothing'}` as `{param}` instead of the `{param}` flag {fi.name}() itself received: the callee decides differently from its caller whether more input may follow", construct=f"{param} not forwarded: {norm(c, 70)}"))
+    return rr
+
+
 def run_fwd(p: Project, clause: str, modules, floor: int, description: str | None = None) -> RuleResult:
     rr = RuleResult("FOCUS-FWD", clause, description or "functions that receive `focus` pass it on to every callee that takes `focus`", floor=floor)
     cand_scope = ("urwid.widget", "urwid.canvas", "urwid.vterm")
